@@ -222,6 +222,9 @@ Inductive Refines (data : list N) : N -> list op -> list opres -> Prop :=
     Refines data (ref_seek data p s) ops rs ->
     Refines data p (Seek s :: ops) (RPos (ref_seek data p s) :: rs).
 
+Definition full_reads_only (ops : list op) : Prop :=
+  Forall (fun o => match o with Read _ => False | _ => True end) ops.
+
 (* the deterministic reference for traces without single `read` calls (and for `Read n` when the
    file answers in full, as Cursor does) *)
 Fixpoint ref_run (data : list N) (p : N) (ops : list op) : list opres :=
